@@ -16,6 +16,7 @@ resolves, or (fresh family) a family directory the registered store does not kno
 later `GetOrCrateDataFamily` of that family fails.
 -/
 import LinVerif.Lemmas.C13Evict
+import LinVerif.Generated.C13
 
 namespace LinVerif.Props.C13
 open LinVerif.Interval
@@ -83,6 +84,29 @@ example :
     (eRun (eInit .day [1715851800000, 1715851800001] [])
       [.evict, .w 0, .w 0, .w 0, .evict, .w 1, .w 1, .w 1]).threads.map (·.famObj) = [some 1, some 1] := by
   decide
+
+namespace Tie
+open LinVerif.Generated
+
+/-- the steps the evict model rests on, re-read from the source: `intervalSegment.EvictSegment` is one
+critical section that asks `NeedEvict`, closes and deletes; `NeedEvict` looks at `len(families)` under
+the segment's lock; `segment.Close` closes the kv store and replaces the family map but marks nothing
+on the Segment object; `shard.EvictSegment` only forwards; `shard.GetOrCrateDataFamily` get-or-creates
+the segment, yields, get-or-creates segments once more in the rollup-target loop and then asks the
+segment object of the FIRST call for the family. -/
+theorem evict_steps :
+    C13.evictSegmentEvents = ["Lock", "defer:Unlock", "read:segments", "call:NeedEvict", "call:Close",
+      "call:delete", "call:String", "call:String", "call:Info"] ∧
+    C13.needEvictEvents = ["Lock", "defer:Unlock", "call:len"] ∧
+    C13.segmentCloseEvents = ["Lock", "defer:Unlock", "call:Close", "call:Indicator", "call:String",
+      "call:Error", "call:GetStoreManager", "call:Name", "call:CloseStore", "call:Error", "call:Error",
+      "call:make"] ∧
+    C13.shardEvictSegmentEvents = ["call:EvictSegment"] ∧
+    C13.shardGetOrCrateDataFamilyEvents = ["call:Calculator", "call:GetSegment", "call:GetOrCreateSegment",
+      "call:Yield", "call:Calculator", "call:GetSegment", "call:GetOrCreateSegment",
+      "call:GetOrCreateDataFamily"] := by decide
+
+end Tie
 
 namespace Neg
 
